@@ -141,6 +141,11 @@ def gen_inputs(ctx):
             t[i] = rng.choice(alpha)
             t[j] = rng.choice(alpha)
             out.append(("B58DecCheck", T("".join(t)), ("chk-sub2",)))
+    # long strings (hundreds of characters): no table of weights, no recursion depth, no fixed width gives out
+    for n in ((400, 520) if q else (380, 400, 512, 520, 700, 1000)):
+        bl = bytes(rng.randrange(1, 256) for _ in range(n))
+        out.append(("B58Enc", B(bl), ("enc-long", n)))
+        out.append(("B58Dec", T(R.b58enc(bl)), ("dec-long", n)))
     # long all-zero payloads (every zero byte is a leading zero): the boundary between payload and checksum must not
     # depend on how many non-zero bytes are left (the checksum of 193 zero bytes starts with a zero byte itself)
     for n in (range(129, 301) if not q else (129, 160, 192, 193, 194, 255, 256, 300)):
